@@ -60,6 +60,7 @@ ENTRIES = [
     ('assign-from-temporary', 'g', 'typedef typename std::decay<decltype(X)>::type K; G Z; Z = K(X); d << Z; K mv(X); G W; W = std::move(mv); d << W; G V((K(X))); d << V;'),
     ('view=temporary', 'g', 'typedef typename std::decay<decltype(X)>::type K; typename G::DataType buf = Yo.coeffs(); Eigen::Map<G> V(buf.data()); V = K(X); d << V; d << buf;'),
     ('tangent+group(group-in-any-storage)', 'g', 'd << (to + X) << to.plus(X) << to.lplus(X) << to.rplus(X) << to.plus(X, Ja, Jb) << Ja << Jb << to.rplus(X, Ja, Jb) << Ja << Jb;'),
+    ('static-constants(odr-use)', 'g', 'typedef typename std::decay<decltype(X)>::type K; d << odr(K::Dim) << odr(K::DoF) << odr(K::RepSize) << (BSz<K>::get() < 0 ? BSz<G>::get() : BSz<K>::get()) << std::max(K::DoF, K::RepSize);'),
     ('Identity', 's', 'd << G::Identity();'),
     ('Random', 's', 'srand(7); d << (int)G::Random().size();'),
     # ---- mutating group members ---------------------------------------------------------------------
@@ -114,6 +115,7 @@ ENTRIES = [
     ('tangent-copy-initialise(implicit-conversion)', 't', 'T z = t; d << z; const T& r = t; d << r;'),
     ('tangent-assign-from-temporary', 't', 'typedef typename std::decay<decltype(t)>::type K; T z; z = K(t); d << z; K mv(t); T w; w = std::move(mv); d << w; T v((K(t))); d << v;'),
     ('tangent-view=temporary', 't', 'typedef typename std::decay<decltype(t)>::type K; typename T::DataType buf = so.coeffs(); Eigen::Map<T> v(buf.data()); v = K(t); d << v; d << buf;'),
+    ('tangent-static-constants(odr-use)', 't', 'typedef typename std::decay<decltype(t)>::type K; d << odr(K::Dim) << odr(K::DoF) << odr(K::RepSize) << (BSz<K>::get() < 0 ? BSz<T>::get() : BSz<K>::get()) << std::max(K::DoF, K::RepSize);'),
     ('Zero', 's', 'd << T::Zero();'),
     ('Tangent::Random', 's', 'srand(7); d << (int)T::Random().size();'),
     ('Generator', 's', 'd << T::Generator(0);'),
@@ -195,6 +197,11 @@ struct Dg {  // digest of a result: the scalars, bit-exact
   template <class D> Dg& operator|(const manif::LieGroupBase<D>& x) { return *this | x.coeffs(); }
   template <class D> Dg& operator|(const manif::TangentBase<D>& x) { return *this | x.coeffs(); }
 };
+// odr-use of the public static constants: binding to a reference needs their out-of-class definition in C++11/14 ("compiles and links")
+__attribute__((noinline)) static int odr(const int& x) { return x; }
+__attribute__((noinline)) static int odrz(const std::size_t& x) { return (int)x; }
+template <class K, class = void> struct BSz { static int get() { return -1; } };
+template <class K> struct BSz<K, decltype(void(K::BundleSize))> { static int get() { return odrz(K::BundleSize); } };
 struct Fixture {
   G Xo, Yo; T to, so; typename G::Vector p;
   typename G::DataType bx, by; typename T::DataType bt, bs;
